@@ -159,11 +159,13 @@ def rotation_phi(phi):
 
 def rotation_d_alpha(alpha, phi):
     """gradient of RF pulse w/r alpha"""
+    alpha, phi = common.expand_arrays(alpha, phi, append=True)
     return rotation_phi(phi) @ rotation_alpha_d(alpha) @ rotation_phi(-phi)
 
 
 def rotation_d_phi(alpha, phi):
     """gradient of RF pulse w/r phi"""
+    alpha, phi = common.expand_arrays(alpha, phi, append=True)
     return rotation_phi_d(phi) @ rotation_alpha(alpha) @ rotation_phi(
         -phi
     ) - rotation_phi(phi) @ rotation_alpha(alpha) @ rotation_phi_d(-phi)
@@ -202,11 +204,13 @@ def rotation_phi_d(phi):
 
 def rotation_d2_alpha(alpha, phi):
     """gradient of RF pulse w/r alpha"""
+    alpha, phi = common.expand_arrays(alpha, phi, append=True)
     return rotation_phi(phi) @ rotation_alpha_d2(alpha) @ rotation_phi(-phi)
 
 
 def rotation_d_alpha_phi(alpha, phi):
     """gradient of RF pulse w/r alpha"""
+    alpha, phi = common.expand_arrays(alpha, phi, append=True)
     return rotation_phi_d(phi) @ rotation_alpha_d(alpha) @ rotation_phi(
         -phi
     ) - rotation_phi(phi) @ rotation_alpha_d(alpha) @ rotation_phi_d(-phi)
@@ -214,6 +218,7 @@ def rotation_d_alpha_phi(alpha, phi):
 
 def rotation_d2_phi(alpha, phi):
     """gradient of RF pulse w/r phi"""
+    alpha, phi = common.expand_arrays(alpha, phi, append=True)
     return (
         rotation_phi_d2(phi) @ rotation_alpha(alpha) @ rotation_phi(-phi)
         + rotation_phi(phi) @ rotation_alpha(alpha) @ rotation_phi_d2(-phi)
